@@ -541,6 +541,12 @@ def run_builtin(key):
         x //= 3
     sp = np.array(digits[:n]).reshape(F, K, T)
     se = np.array(digits[n:]).reshape(F, K, T)
+    if key.get('grid') == 'long':
+        # two observations per table: the first one is repeated 4096 times, the second one 5 times (4101 frames) -
+        # the few last frames decide whenever the head ties
+        rep = np.array([4096, 5])
+        sp, se = np.repeat(sp, rep, axis=-1), np.repeat(se, rep, axis=-1)
+        T = sp.shape[-1]
     if wkind == 'uniform':
         w = np.full((K, 1), 1.0 / K)
     else:
@@ -730,6 +736,8 @@ def subchecks(tier, seed):
             # three classes, two observations: every 27th table of the mixed grid (thorough: all of them)
             for idx in range(0, 3 ** 12, 27):
                 yield (3, 1, 2, idx + (idx // 27) % 27, 'uniform', 'mixed')
+        for idx in range(3 ** 8):
+            yield (2, 1, 2, idx, 'uniform', 'long')
         for (K, F, T) in tabs:
             for idx in range(3 ** (2 * K * F * T)):
                 for w in ('uniform', 'graded'):
